@@ -668,7 +668,7 @@ def _replay_batch(items):
         observations = _execute(items, insts)
     except Exception:  # pylint: disable=broad-except
         observations = None  # one case broke the shared file: replay each case in a file of its own
-        stats["batches_replayed_singly"] += 1
+        stats["batches_replayed_singly"] += len(items) > 1
     for idx, (item, inst) in enumerate(zip(items, insts)):
         res = None
         if observations is not None:
